@@ -48,6 +48,8 @@ def gen_case(rng):
     clone / of a clone-into) at any point, interleaved with edits, deletions and level (re)loads: load_*(merge=True),
     unmerged load_*(merge=False) made visible by a later merge()/load/env load/write, set_runtime_path+load_runtime,
     set_project_location+load_project, load_shell_env"""
+    # a per-user config file in the DEFAULT location while the case runs (the originals use explicit prefixes elsewhere)
+    home = c06.tree(rng, dens=0.6) if rng.random() < 0.6 else None
     r = rng.random()
     if r < 0.2:
         # (C) HANDLE HISTORIES: proxy handles obtained earlier and kept across later writes / loads / merges / clones,
@@ -55,21 +57,21 @@ def gen_case(rng):
         ops = c06.gen_handle_history(rng, maxlen=rng.randint(6, 24), files=rng.random() < 0.4, clone_p=0.15, levels=True)
         if not any(o["op"] == "CLONE" for o in ops):
             ops.append({"o": 0, "op": "CLONE"})
-        return {"kind": "c11", "ops": ops, "nomodel": True}
+        return {"kind": "c11", "ops": ops, "nomodel": True, "home": home}
     if r < 0.5:
         ops = c06.gen_history(rng, maxlen=rng.randint(4, 26), risky=0.25, files=rng.random() < 0.5, clone_p=0.12,
-                              into_p=0.3, coll_p=0.5, max_objs=3)
+                              into_p=0.3, coll_p=0.5, max_objs=3, share_p=0.25)
     else:
         classes = [c06.tree(rng, dens=0.45) for _ in range(rng.randint(1, 3))]
         ops = c06.gen_history(rng, maxlen=rng.randint(8, 30), risky=0.2, files=rng.random() < 0.5, clone_p=0.22,
-                              into_p=0.65, coll_p=0.3, max_objs=6, classes=classes, reload_p=0.3, levels=True,
+                              into_p=0.65, coll_p=0.3, max_objs=6, classes=classes, reload_p=0.3, levels=True, share_p=0.2,
                               focus=rng.choice([0.0, 0.5, 0.8]))
     if not any(o["op"] == "CLONE" for o in ops):
         k = rng.randint(1, len(ops))
         while k < len(ops) and ops[k - 1]["op"] == "LOADU":
             k += 1
         ops.insert(k, {"o": 0, "op": "CLONE"})
-    return {"kind": "c11", "ops": ops}
+    return {"kind": "c11", "ops": ops, "home": home}
 
 
 def into_check(into, ov, cv):
@@ -154,7 +156,43 @@ def shared_containers(impl):
     return between, with_sources
 
 
+class HomeDir:
+    """ENVIRONMENT dimension: $HOME points at a scratch directory holding a per-user config file in the DEFAULT
+    location (~/.invoke.json) for the duration of one case; the real home is never touched and HOME is restored.
+    (/etc/invoke.* - the default system location - cannot be provided without writing outside the scratch area.)"""
+    count = 0
+
+    def __init__(self, tmpdir, data):
+        self.tmpdir, self.data = tmpdir, data
+
+    def __enter__(self):
+        import json
+        import os
+        self.saved = os.environ.get("HOME")
+        if self.data is None:
+            return self
+        HomeDir.count += 1
+        home = os.path.join(self.tmpdir, "home%d" % HomeDir.count)
+        os.makedirs(home, exist_ok=True)
+        with open(os.path.join(home, ".invoke.json"), "w") as fd:
+            json.dump(self.data, fd)
+        os.environ["HOME"] = home
+        return self
+
+    def __exit__(self, *a):
+        import os
+        if self.saved is None:
+            os.environ.pop("HOME", None)
+        else:
+            os.environ["HOME"] = self.saved
+
+
 def run_case(case, tmpdir):
+    with HomeDir(tmpdir, case.get("home")):
+        return _run_case(case, tmpdir)
+
+
+def _run_case(case, tmpdir):
     """returns (ops run, impl rows, failure|None, signature|None, stats)"""
     ops = case["ops"]
     impl = cfglib.Impl(tmpdir)
@@ -239,11 +277,16 @@ def run(ctx):
     tmp = tempfile.mkdtemp(prefix="verif-c11-")
     lines, rows, ran = [], [], []
     try:
-        for _ in range(ctx.n(3000, 45000)):
+        for _ in range(ctx.n(2600, 45000)):
             case = gen_case(rng)
             nomodel = case.get("nomodel", False)
             ops, row, fail, sig, stats, results = run_case(case, tmp)
-            case = {"kind": "c11", "ops": ops}
+            case = {"kind": "c11", "ops": ops, "home": case.get("home")}
+            out.hist["cases_with_default_location_user_file"] += case["home"] is not None
+            out.hist["levels_with_shared_subobject"] += sum(len(o.get("share", {})) for o in ops)
+            out.hist["shared_subobject_in_yaml_file_level"] += sum(
+                1 for o in ops for f in o.get("share", {}) if f in ("system", "user", "project", "runtime")
+                or (f == "data" and o["op"] in ("RUNTIME", "PROJECT")))
             if nomodel:
                 case["nomodel"] = True
                 out.hist["handle_histories"] += 1
